@@ -406,6 +406,10 @@ func Check(evs []Ev) ([]Finding, Stats) {
 				add(i, "gc-in-killed-context", fmt.Sprintf("%s owner=%s", o.class(), ownerName(P)),
 					"id %d belongs to context %d; its finaliser ran after that context had been killed (finalisers of a killed context must be skipped)", e.ID, P)
 			}
+			if e.Cpu < 1<<62 && e.LuaCpu != int64(e.Cpu) {
+				add(i, "context-view-mismatch", o.class(),
+					"inside the finaliser of id %d runtime.context().kill.cpu is %d but the Go API reports a hard CPU limit of %d", e.ID, e.LuaCpu, e.Cpu)
+			}
 			if e.Status != "live" {
 				add(i, "gc-in-nonlive-context", fmt.Sprintf("%s status=%s", o.class(), e.Status),
 					"the finaliser of id %d saw runtime.context().status=%q", e.ID, e.Status)
